@@ -71,18 +71,21 @@ def run_cvc5(smt2: str, timeout_ms: int):
 def discharge(job):
     """job = (name, smt2, timeout_ms).  Returns dict with verdict and back end."""
     name, smt2, timeout_ms = job
+    if timeout_ms < 0:  # cover job: one quick z3 call, no fallback
+        r, t, model, reason = run_z3(smt2, -timeout_ms)
+        return dict(name=name, verdict=r, backend="z3", seconds=t, model=None, reason=reason)
     r, t, model, reason = run_z3(smt2, timeout_ms)
     backend = "z3"
     total = t
     if r == "unknown":
-        for seed in (7, 31):
+        for seed in ((7, 31) if timeout_ms > 20000 else ()):
             r2, t2, model2, reason2 = run_z3(smt2, timeout_ms, seed)
             total += t2
             if r2 != "unknown":
                 r, model, reason = r2, model2, reason2
                 break
     if r == "unknown":
-        r3, t3, _, reason3 = run_cvc5(smt2, timeout_ms)
+        r3, t3, _, reason3 = run_cvc5(smt2, min(timeout_ms, 30000) if timeout_ms > 20000 else 5000)
         total += t3
         if r3 == "unsat":
             r, backend = "unsat", "cvc5"
